@@ -279,6 +279,7 @@ def execute(scn):
             import contextlib
             import io
             ncalls = len(calls)
+            np.random.seed((scn['seed'] + 1) % (2 ** 32))         # check() draws its traces from numpy's global generator
             try:
                 with contextlib.redirect_stdout(io.StringIO()):
                     sy.check(nb_traces=scn['check_after'])
